@@ -465,3 +465,261 @@ Proof.
     inversion H; reflexivity. }
   unfold rcrel in *. rewrite E4, Hx1, E2. exact C.
 Qed.
+
+Lemma step_leader_rcrel rw r m r' c :
+  step_leader r m = Ok (r', c) -> msg_wf (last_index (r_log r)) m -> LI rw r -> rcrel r r'.
+Proof.
+  unfold step_leader. intros H (_ & Wp & _ & _) HI.
+  destruct (m_type m =? MsgBeat).
+  { inv_bind H. inversion H; subst. apply rcrel_eq. eapply bcast_heartbeat_log; exact Hx. }
+  destruct (m_type m =? MsgCheckQuorum).
+  { destruct (quorum_recently_active (r_prs r) (r_id r)) as [prs' active] eqn:Eq.
+    destruct active; cbn [negb] in H.
+    - inversion H; subst. apply rcrel_eq; reflexivity.
+    - inv_bind H. inversion H; subst. apply become_follower_rcrel in Hx. exact Hx. }
+  destruct (m_type m =? MsgPropose) eqn:Ep.
+  { apply N.eqb_eq in Ep. specialize (Wp Ep).
+    destruct (m_entries m) as [|e0 es] eqn:Ee; [discriminate|]. rewrite <- Ee in *.
+    destruct (get_pr r (r_id r)); [|inversion H; subst; apply rcrel_eq; reflexivity].
+    destruct (r_lead_transferee r); [inversion H; subst; apply rcrel_eq; reflexivity|].
+    dfilter H. pose proof (filter_conf_changes_log _ _ _ _ _ _ _ F) as El.
+    pose proof (filter_length _ _ _ _ _ _ _ F) as Hlen.
+    assert (H1 : LI rw a) by (eapply LI_same; eassumption).
+    destruct c0; cbn [negb] in H; [|inversion H; subst; apply rcrel_eq; exact El].
+    inv_bind H. destruct x as [r2 appended].
+    destruct (append_entry_rel rw _ _ _ _ Hx H1) as (C & _).
+    { unfold room. rewrite El, Hlen. exact Wp. }
+    assert (C2 : rcrel r r2) by (unfold rcrel in *; rewrite El in C; exact C).
+    destruct appended; cbn [negb] in H.
+    - inv_bind H. inversion H; subst. apply bcast_append_log in Hx0.
+      unfold rcrel in *. rewrite Hx0. exact C2.
+    - inversion H; subst. exact C2. }
+  destruct (m_type m =? MsgReadIndex).
+  { inv_bind H. destruct (negb x); [inversion H; subst; apply rcrel_eq; reflexivity|].
+    assert (Hans : forall ra c',
+      (x0 <- handle_ready_read_index r m (committed (r_log r)) ;;
+       let '(r1, om) := x0 in
+       r2 <- match om with Some mm => send r1 mm | None => Ok r1 end ;; Ok (r2, E_OK)) = Ok (ra, c') ->
+      rcrel r ra).
+    { intros ra c' Ha. inv_bind Ha. destruct x0 as [r1 om]. inv_bind Ha. inversion Ha; subst.
+      apply handle_ready_read_index_log in Hx0. apply rcrel_eq.
+      destruct om; [apply send_log in Hx1|inversion Hx1; subst]; congruence. }
+    match type of H with (if ?c then _ else _) = _ => destruct c end; [eapply Hans; exact H|].
+    destruct (ro_option (r_read_only r) =? 0); [|eapply Hans; exact H].
+    inv_bind H. inv_bind H. inv_bind H. inversion H; subst.
+    apply bcast_heartbeat_with_ctx_log in Hx2. apply rcrel_eq. exact Hx2. }
+  destruct (m_type m =? MsgAppendResponse).
+  { inv_bind H. inversion H; subst. eapply handle_append_response_rcrel; eassumption. }
+  destruct (m_type m =? MsgHeartbeatResponse).
+  { inv_bind H. inversion H; subst. apply rcrel_eq. eapply handle_heartbeat_response_log; eassumption. }
+  destruct (m_type m =? MsgSnapStatus).
+  { inv_bind H. inversion H; subst. apply rcrel_eq. eapply handle_snapshot_status_log; eassumption. }
+  destruct (m_type m =? MsgUnreachable).
+  { inv_bind H. inversion H; subst. apply rcrel_eq. eapply handle_unreachable_log; eassumption. }
+  destruct (m_type m =? MsgTransferLeader).
+  { inv_bind H. inversion H; subst. apply rcrel_eq. eapply handle_transfer_leader_log; eassumption. }
+  inversion H; subst. apply rcrel_eq; reflexivity.
+Qed.
+
+Lemma step_candidate_rcrel rw r m r' c :
+  step_candidate r m = Ok (r', c) -> msg_wf (last_index (r_log r)) m -> LI rw r -> rcrel r r'.
+Proof.
+  unfold step_candidate. intros H (We & _ & Wa & Ws) HI.
+  destruct (m_type m =? MsgPropose). { inversion H; subst. apply rcrel_eq; reflexivity. }
+  match type of H with (if ?c then _ else _) = _ => destruct c eqn:E1 end.
+  { destruct (negb (r_term r =? m_term m)); [discriminate|].
+    inv_bind H. destruct (become_follower_pres rw _ _ _ _ Hx HI) as [H1 L1].
+    pose proof (become_follower_rcrel _ _ _ _ Hx) as C1.
+    inv_bind H. inversion H; subst. eapply rcrel_trans; [exact C1|].
+    destruct (m_type m =? MsgAppend) eqn:Ea.
+    { apply N.eqb_eq in Ea. eapply handle_append_entries_rcrel; [exact Hx0|exact (Wa Ea)|exact H1]. }
+    destruct (m_type m =? MsgHeartbeat) eqn:Eh; [eapply handle_heartbeat_rcrel; eassumption|].
+    cbn [orb] in E1. apply N.eqb_eq in E1.
+    eapply handle_snapshot_rcrel; [exact Hx0|exact (Ws E1)|exact H1]. }
+  match type of H with (if ?c then _ else _) = _ => destruct c eqn:E2 end.
+  2:{ inversion H; subst. apply rcrel_eq; reflexivity. }
+  match type of H with (if ?c then _ else _) = _ => destruct c end.
+  { inversion H; subst. apply rcrel_eq; reflexivity. }
+  inv_bind H. destruct x as [r1 res]. inv_bind H. inversion H; subst. cbn [fst] in Hx0.
+  specialize (We (elect_type_vote_resp _ E2)).
+  eapply rcrel_trans; [eapply poll_rcrel; eassumption|].
+  eapply maybe_commit_by_vote_rcrel; [exact Hx0|]. eapply poll_pres; eassumption.
+Qed.
+
+Lemma step_follower_rcrel rw r m r' c :
+  step_follower r m = Ok (r', c) -> msg_wf (last_index (r_log r)) m -> LI rw r -> rcrel r r'.
+Proof.
+  unfold step_follower. intros H (We & _ & Wa & Ws) HI.
+  destruct (m_type m =? MsgPropose).
+  { destruct (r_leader_id r =? INVALID_ID); [inversion H; subst; apply rcrel_eq; reflexivity|].
+    destruct (r_disable_proposal_forwarding r); [inversion H; subst; apply rcrel_eq; reflexivity|].
+    inv_bind H. inversion H; subst. apply rcrel_eq. eapply send_log; eassumption. }
+  destruct (m_type m =? MsgAppend) eqn:Ea.
+  { apply N.eqb_eq in Ea. inv_bind H. inversion H; subst.
+    exact (handle_append_entries_rcrel rw _ _ _ Hx (Wa Ea) HI). }
+  destruct (m_type m =? MsgHeartbeat).
+  { inv_bind H. inversion H; subst. exact (handle_heartbeat_rcrel rw _ _ _ Hx HI). }
+  destruct (m_type m =? MsgSnapshot) eqn:Es.
+  { apply N.eqb_eq in Es. inv_bind H. inversion H; subst.
+    exact (handle_snapshot_rcrel rw _ _ _ Hx (Ws Es) HI). }
+  destruct (m_type m =? MsgTransferLeader).
+  { destruct (r_leader_id r =? INVALID_ID); [inversion H; subst; apply rcrel_eq; reflexivity|].
+    inv_bind H. inversion H; subst. apply rcrel_eq. eapply send_log; eassumption. }
+  destruct (m_type m =? MsgTimeoutNow) eqn:Et.
+  { destruct (r_promotable r); [|inversion H; subst; apply rcrel_eq; reflexivity].
+    inv_bind H. inversion H; subst. eapply hup_rcrel; [exact Hx|exact HI|].
+    apply We. unfold elect_type. rewrite Et. rewrite ?orb_true_r. reflexivity. }
+  destruct (m_type m =? MsgReadIndex).
+  { destruct (r_leader_id r =? INVALID_ID); [inversion H; subst; apply rcrel_eq; reflexivity|].
+    inv_bind H. inversion H; subst. apply rcrel_eq. eapply send_log; eassumption. }
+  destruct (m_type m =? MsgReadIndexResp).
+  { destruct (m_entries m) as [|e [|e2 es]]; try (inversion H; subst; apply rcrel_eq; reflexivity).
+    inv_bind H. inversion H; subst. destruct x as [l' b].
+    exact (log_maybe_commit_crel rw _ _ _ _ _ Hx HI). }
+  inversion H; subst. apply rcrel_eq; reflexivity.
+Qed.
+
+Lemma step_body_rcrel rw r m r' c :
+  RaftProofsC08.step_body r m = Ok (r', c) -> msg_wf (last_index (r_log r)) m -> LI rw r -> rcrel r r'.
+Proof.
+  unfold RaftProofsC08.step_body. intros H W HI.
+  destruct (m_type m =? MsgHup) eqn:Eh.
+  { inv_bind H. inversion H; subst. eapply hup_rcrel; [exact Hx|exact HI|].
+    apply (proj1 W). unfold elect_type. rewrite Eh. reflexivity. }
+  match type of H with (if ?c then _ else _) = _ => destruct c end.
+  { inv_bind H. inv_bind H.
+    match type of H with (if ?c then _ else _) = _ => destruct c end.
+    - inv_bind H. apply send_log in Hx1.
+      destruct (m_type m =? MsgRequestVote); inversion H; subst; apply rcrel_eq; exact Hx1.
+    - inv_bind H. inv_bind H. inv_bind H. inversion H; subst. apply send_log in Hx2.
+      eapply rcrel_trans; [apply rcrel_eq; exact Hx2|].
+      eapply maybe_commit_by_vote_rcrel; [exact Hx3|]. eapply LI_same; eassumption. }
+  unfold step_role in H. destruct (r_state r).
+  - eapply step_follower_rcrel; eassumption.
+  - eapply step_candidate_rcrel; eassumption.
+  - eapply step_leader_rcrel; eassumption.
+  - eapply step_candidate_rcrel; eassumption.
+Qed.
+
+(* C05 (2), per call: step *)
+Theorem step_rcrel rw r m r' c :
+  step r m = Ok (r', c) -> msg_wf (last_index (r_log r)) m -> LI rw r -> rcrel r r'.
+Proof.
+  intros H W HI. rewrite step_decompose in H. inv_bind H. apply step_prologue_spec in Hx.
+  destruct x as [[r1 c1]|r1].
+  - inversion H; subst. apply rcrel_eq. apply lf_log. apply Hx.
+  - destruct Hx as [-> |(_ & l & Hbf)]; [eapply step_body_rcrel; eassumption|].
+    destruct (become_follower_pres rw _ _ _ _ Hbf HI) as [H1 L1].
+    eapply rcrel_trans; [eapply become_follower_rcrel; exact Hbf|].
+    eapply step_body_rcrel; [exact H| |exact H1]. rewrite L1. exact W.
+Qed.
+
+Theorem tick_rcrel rw r r' b : tick r = Ok (r', b) -> LI rw r -> room 1 r -> rcrel r r'.
+Proof.
+  unfold tick. intros H HI Hroom.
+  assert (Hel : forall ra b', tick_election r = Ok (ra, b') -> rcrel r ra).
+  { unfold tick_election. intros ra b' He.
+    match type of He with (if ?c then _ else _) = _ => destruct c end;
+      [inversion He; subst; apply rcrel_eq; reflexivity|].
+    inv_bind He. inversion He; subst. destruct x as [r1 c]. cbn [fst].
+    eapply rcrel_trans; [|eapply step_rcrel; [exact Hx| |exact HI]]; [apply rcrel_eq; reflexivity|].
+    unfold msg_wf. cbn. splits; try (intros E; discriminate). intros _. exact Hroom. }
+  assert (Hhb : forall ra b', tick_heartbeat r = Ok (ra, b') -> rcrel r ra).
+  { unfold tick_heartbeat. intros ra b' He. inv_bind He. destruct x as [r1 hr].
+    assert (H1 : LI rw r1 /\ rcrel r r1).
+    { match type of Hx with (if ?c then _ else _) = _ => destruct c end;
+        [|inversion Hx; subst; split; [exact HI|apply rcrel_eq; reflexivity]].
+      inv_bind Hx. destruct x as [rb hb]. inversion Hx; subst.
+      assert (Hb : LI rw rb /\ rcrel r rb).
+      { destruct (r_check_quorum _); [|inversion Hx0; subst; split; [exact HI|apply rcrel_eq; reflexivity]].
+        inv_bind Hx0. inversion Hx0; subst. destruct x as [rc cc]. cbn [fst].
+        match type of Hx1 with step ?ra ?mm = _ =>
+          assert (Wc : msg_wf (last_index (r_log ra)) mm)
+            by (apply msg_wf_plain; cbn; [reflexivity|discriminate|discriminate|discriminate]);
+          assert (Ha : LI rw ra) by exact HI end.
+        split; [eapply step_pres; eassumption|].
+        eapply rcrel_trans; [|eapply step_rcrel; eassumption]. apply rcrel_eq; reflexivity. }
+      match goal with |- LI rw (if ?c then _ else _) /\ _ => destruct c end; exact Hb. }
+    destruct H1 as [H1 C1].
+    destruct (negb (is_leader r1)); [inversion He; subst; exact C1|].
+    match type of He with (if ?c then _ else _) = _ => destruct c end; [|inversion He; subst; exact C1].
+    inv_bind He. inversion He; subst. destruct x as [rb cb]. cbn [fst].
+    eapply rcrel_trans; [exact C1|].
+    match type of Hx0 with step ?ra ?mm = _ =>
+      assert (Wc : msg_wf (last_index (r_log ra)) mm)
+        by (apply msg_wf_plain; cbn; [reflexivity|discriminate|discriminate|discriminate]);
+      assert (Ha : LI rw ra) by exact H1 end.
+    eapply rcrel_trans; [|eapply step_rcrel; eassumption]. apply rcrel_eq; reflexivity. }
+  destruct (r_state r); first [eapply Hel; exact H|eapply Hhb; exact H].
+Qed.
+
+Theorem on_persist_entries_rcrel rw r i t r' : on_persist_entries r i t = Ok r' -> LI rw r -> rcrel r r'.
+Proof.
+  intros H HI. destruct (on_persist_entries_pres rw _ _ _ _ H HI) as [_ S].
+  apply crel_same_su; [exact S|].
+  unfold on_persist_entries in H. inv_bind H. destruct x as [l' upd].
+  destruct (maybe_persist_pres rw _ _ _ _ _ Hx HI) as [A B].
+  assert (Ec : committed l' = committed (r_log r)).
+  { destruct (maybe_persist_ok rw _ i t HI) as (l2 & b2 & Hm & _ & _ & Hc & _).
+    rewrite Hx in Hm. inversion Hm; subst. exact Hc. }
+  match type of H with (if ?c then _ else _) = _ => destruct c end; [|inversion H; subst; cbn; lia].
+  match type of H with (match ?g with _ => _ end) = _ => destruct g as [pr|] end;
+    [|inversion H; subst; cbn; lia].
+  destruct (maybe_update pr i) as [pr' u]. destruct u; [|inversion H; subst; cbn; lia].
+  inv_bind H. destruct x as [r1 c].
+  match type of Hx0 with Raft.maybe_commit ?ra = _ => assert (Ha : LI rw ra) by exact A end.
+  destruct (maybe_commit_rcrel rw _ _ _ Hx0 Ha) as (C & _). cbn in C.
+  match type of H with (if ?c then _ else _) = _ => destruct c end.
+  - apply bcast_append_log in H. rewrite H. lia.
+  - inversion H; subst. lia.
+Qed.
+
+Theorem on_persist_snap_rcrel rw r i r' :
+  on_persist_snap r i = Ok r' -> LI rw r ->
+  (persisted (r_log r) < i -> i < next_of (store (r_log r))) -> rcrel r r'.
+Proof.
+  intros H HI Hn. destruct (on_persist_snap_pres rw _ _ _ H HI Hn) as [_ S].
+  apply crel_same_su; [exact S|].
+  unfold on_persist_snap in H. inv_bind H. destruct x as [l' b]. inversion H; subst. cbn.
+  unfold maybe_persist_snap in Hx. destruct (persisted _ <? i); [|inversion Hx; lia].
+  destruct (committed _ <? i); [discriminate|]. destruct (_ <=? i); [discriminate|]. inversion Hx; cbn; lia.
+Qed.
+
+Theorem commit_apply_rel rw r a r' :
+  commit_apply r a = Ok r' -> LI rw r -> (is_leader r = true -> room 1 r) ->
+  rcrel r r' /\ grows (r_log r) (r_log r').
+Proof.
+  unfold commit_apply, commit_apply_internal. cbn [negb]. intros H HI Hroom.
+  inv_bind H. destruct (applied_to_pres rw _ _ _ Hx HI) as (A & B1 & B2 & B3).
+  assert (Eabs : abs x = abs (r_log r)) by (apply abs_ext; assumption).
+  assert (C1 : crel (r_log r) x) by (apply crel_abs_eq; [exact Eabs|lia]).
+  assert (G1 : grows (r_log r) x) by (apply grows_abs_eq; exact Eabs).
+  match type of H with (if ?c then _ else _) = _ => destruct c eqn:Ec end;
+    [|inversion H; subst; split; assumption].
+  inv_bind H. destruct x0 as [r1 ok]. destruct ok; cbn [negb] in H; [|discriminate].
+  inversion H; subst. cbn.
+  apply andb_prop in Ec. destruct Ec as [_ El]. change (is_leader r = true) in El.
+  destruct (append_entry_rel rw _ _ _ _ Hx0 A) as (C2 & G2).
+  { unfold room. cbn. rewrite (last_index_eq _ _ B2 B1). exact (Hroom El). }
+  cbn in C2, G2. unfold rcrel in *.
+  split; [eapply crel_trans; eassumption|eapply grows_trans; eassumption].
+Qed.
+
+Theorem raft_apply_conf_change_rcrel rw r cc r' ocs :
+  raft_apply_conf_change r cc = Ok (r', ocs) -> LI rw r -> rcrel r r'.
+Proof.
+  unfold raft_apply_conf_change. intros H HI.
+  match type of H with (match ?g with _ => _ end) = _ => destruct g as [[c' chs]|e] end.
+  - inv_bind H. destruct x as [r1 cs]. inversion H; subst. cbn [fst].
+    match type of Hx with post_conf_change ?ra = _ => assert (Ha : LI rw ra) by exact HI end.
+    exact (post_conf_change_rcrel rw _ _ _ Hx Ha).
+  - inversion H; subst. apply rcrel_eq; reflexivity.
+Qed.
+
+Theorem load_state_rcrel r hs r' : load_state r hs = Ok r' -> rcrel r r'.
+Proof.
+  unfold load_state. intros H.
+  match type of H with (if ?c then _ else _) = _ => destruct c eqn:E end; [discriminate|].
+  inversion H; subst. apply orb_false_elim in E. destruct E as [E1 _].
+  unfold rcrel. cbn. apply crel_abs_eq; [apply abs_ext; reflexivity|cbn; lia].
+Qed.
